@@ -406,7 +406,7 @@ fn fold_compound_literals(want: &BTreeSet<MQuad>) -> (BTreeSet<MQuad>, bool) {
 
 fn run_c12(ctx: &mut Ctx) -> Verdict {
     let hs = ctx.tape.draw(1 << 32);
-    let fmt = JsonLd {
+    let mut fmt = JsonLd {
         spaces: ctx.tape.below(5) as u16,
         mode_1_0: ctx.tape.flag(),
         use_rdf_type: ctx.tape.flag(),
@@ -431,7 +431,16 @@ fn run_c12(ctx: &mut Ctx) -> Verdict {
     }
     // known finding (rdf-types forgets '.' in BLANK_NODE_LABEL): keep dotted labels in 1 run
     // out of 8 only, so that the other runs explore past it
-    if !ctx.tape.chance(1, 8) {
+    // (and only where the label is not part of a list structure: the finding turns the node into
+    // an IRI or drops it, and what folding then does around it says nothing new)
+    let dotted_in_list = {
+        let (first, rest) = (MTerm::Iri(format!("{RDF}first")), MTerm::Iri(format!("{RDF}rest")));
+        input.iter().any(|q| {
+            (q.0[1] == first || q.0[1] == rest)
+                && [&q.0[0], &q.0[2]].iter().any(|t| matches!(t, MTerm::Bnode(l) if l.contains('.')))
+        })
+    };
+    if !ctx.tape.chance(1, 8) || dotted_in_list {
         input = input
             .iter()
             .map(|q| map_quad_bnodes(q, &|l| l.replace('.', "-")))
@@ -442,6 +451,12 @@ fn run_c12(ctx: &mut Ctx) -> Verdict {
         ls.iter().any(|l| l.contains('.'))
     }) {
         ctx.probe("dotted_bnode_labels_present");
+        // a run carries the trigger of at most one listed finding (their effects compound in
+        // ways a classifier can not untangle): with dotted labels present, no direction
+        // folding and no typed list node
+        fmt.dir = Dir::None;
+        let (ty, list) = (MTerm::Iri(format!("{RDF}type")), MTerm::Iri(format!("{RDF}List")));
+        input.retain(|q| !(q.0[0].is_bnode() && q.0[1] == ty && q.0[2] == list));
     }
     let expressible: Vec<MQuad> = input.iter().filter(|q| jsonld_expressible(q)).cloned().collect();
     if expressible.len() != input.len() {
@@ -450,55 +465,119 @@ fn run_c12(ctx: &mut Ctx) -> Verdict {
     if expressible.iter().any(|q| q.1.is_some()) {
         ctx.probe("named_graphs_present");
     }
+    {
+        // rare conjunctions worth knowing about (reach, not oracle)
+        let first = MTerm::Iri(format!("{RDF}first"));
+        let ty = MTerm::Iri(format!("{RDF}type"));
+        let is_list_node = |b: &MTerm, g: &Option<MTerm>| expressible.iter().any(|q| &q.1 == g && &q.0[0] == b && q.0[1] == first);
+        if expressible.iter().any(|q| q.0[1] == ty && q.0[2].is_bnode() && is_list_node(&q.0[2], &q.1)) {
+            ctx.probe("list_node_is_object_of_rdf_type");
+        }
+        if expressible.iter().any(|q| q.0[2].is_bnode() && !is_list_node(&q.0[2], &q.1) && expressible.iter().any(|x| x.1 != q.1 && x.0[0] == q.0[2] && x.0[1] == first)) {
+            ctx.probe("list_node_referenced_from_another_graph");
+        }
+        if expressible.iter().any(|q| q.0[0].is_bnode() && q.0[1] == first && q.0[2] == q.0[0]) {
+            ctx.probe("list_node_is_its_own_first");
+        }
+        let list = MTerm::Iri(format!("{RDF}List"));
+        if expressible.iter().any(|q| {
+            q.0[0].is_bnode()
+                && q.0[1] == ty
+                && q.0[2] == list
+                && expressible.iter().any(|x| x.1 == q.1 && x.0[0] == q.0[0] && x.0[1] == ty && x.0[2] != list && matches!(x.0[2], MTerm::Iri(_)))
+                && is_list_node(&q.0[0], &q.1)
+        }) {
+            ctx.probe("list_node_typed_list_and_other");
+        }
+    }
     let want: BTreeSet<MQuad> = expressible.iter().map(norm_quad).collect();
     let compound_mode = fmt.dir == Dir::Compound;
     let i18n_mode = fmt.dir == Dir::I18n;
-    let classify = |want: &BTreeSet<MQuad>, got: &BTreeSet<MQuad>| -> Option<&'static str> {
-        // known finding (json-ld-core 0.15.1 creates the blank node of a compound literal but
-        // none of its rdf:value / rdf:direction / rdf:language triples): what the reader can
-        // give back at best
+    let classify = |want0: &BTreeSet<MQuad>, got0: &BTreeSet<MQuad>| -> Option<&'static str> {
+        // known finding (rdf-types 0.15 forgets '.' in BLANK_NODE_LABEL): a blank node whose
+        // label contains a dot comes back as the IRI <x-string:///_:label>, or not at all when
+        // that string is not even an IRI. What does not mention such a label must be intact
+        // (up to the other listed findings, which are looked for on the remainder).
+        let mentions = |q: &MQuad, f: &dyn Fn(&MTerm) -> bool| q.0.iter().any(f) || q.1.as_ref().is_some_and(f);
+        let dotted = |t: &MTerm| matches!(t, MTerm::Bnode(l) if l.contains('.'));
+        let xstring = |t: &MTerm| matches!(t, MTerm::Iri(i) if i.starts_with("x-string:///_:"));
+        let has_dotted = want0.iter().any(|q| mentions(q, &dotted));
+        let (want_r, got_r): (BTreeSet<MQuad>, BTreeSet<MQuad>) = if has_dotted {
+            (
+                want0.iter().filter(|q| !mentions(q, &dotted)).cloned().collect(),
+                got0.iter().filter(|q| !mentions(q, &xstring)).cloned().collect(),
+            )
+        } else {
+            (want0.clone(), got0.clone())
+        };
+        if has_dotted && isomorphic(&want_r, &got_r).is_yes() {
+            return Some("dotted_bnode_label");
+        }
+        let (want, got) = (&want_r, &got_r);
+        let relabel = |l: &'static str| if has_dotted { "dotted_bnode_label" } else { l };
         let (w1, folded) = if compound_mode { fold_compound_literals(want) } else { (want.clone(), false) };
         if folded && isomorphic(&w1, got).is_yes() {
-            return Some("compound_literal_triples_lost");
+            return Some(relabel("compound_literal_triples_lost"));
         }
         // known finding (json-ld-core 0.15.1 `fn i18n`): a direction without language is read
         // back as i18n#rtl instead of i18n#_rtl
-        if i18n_mode {
+        let mut i18n_changed = false;
+        let w1: BTreeSet<MQuad> = if i18n_mode {
             const NS: &str = "https://www.w3.org/ns/i18n#";
-            let mut changed = false;
-            let w3: BTreeSet<MQuad> = want
-                .iter()
+            w1.iter()
                 .map(|q| {
                     let mut q = q.clone();
                     if let MTerm::Lit(_, dt) = &mut q.0[2] {
                         if dt == &format!("{NS}_ltr") || dt == &format!("{NS}_rtl") {
                             *dt = dt.replace("#_", "#");
-                            changed = true;
+                            i18n_changed = true;
                         }
                     }
                     q
                 })
-                .collect();
-            if changed {
-                let ty = MTerm::Iri(format!("{RDF}type"));
-                let list = MTerm::Iri(format!("{RDF}List"));
-                let w4: BTreeSet<MQuad> =
-                    w3.iter().filter(|q| !(q.0[0].is_bnode() && q.0[1] == ty && q.0[2] == list)).cloned().collect();
-                if isomorphic(&w3, got).is_yes() || isomorphic(&w4, got).is_yes() {
-                    return Some("i18n_direction_without_language");
-                }
-            }
+                .collect()
+        } else {
+            w1
+        };
+        if i18n_changed && isomorphic(&w1, got).is_yes() {
+            return Some(relabel("i18n_direction_without_language"));
         }
         // is the only difference that `_:l rdf:type rdf:List` quads of compacted lists are gone?
         let ty = MTerm::Iri(format!("{RDF}type"));
         let list = MTerm::Iri(format!("{RDF}List"));
-        let w2: BTreeSet<MQuad> = w1
+        // (only of well-formed list nodes: exactly one rdf:first, one rdf:rest and that type in
+        // their graph; which of them were folded depends on their parents, so every non-empty
+        // subset of the candidates is tried)
+        let first = MTerm::Iri(format!("{RDF}first"));
+        let rest = MTerm::Iri(format!("{RDF}rest"));
+        let candidates: Vec<&MQuad> = w1
             .iter()
-            .filter(|q| !(q.0[0].is_bnode() && q.0[1] == ty && q.0[2] == list))
-            .cloned()
+            .filter(|q| q.0[0].is_bnode() && q.0[1] == ty && q.0[2] == list)
+            .filter(|q| {
+                let mine: Vec<&MQuad> = w1.iter().filter(|x| x.1 == q.1 && x.0[0] == q.0[0]).collect();
+                mine.len() == 3
+                    && mine.iter().filter(|x| x.0[1] == first).count() == 1
+                    && mine.iter().filter(|x| x.0[1] == rest).count() == 1
+            })
             .collect();
-        if w2.len() < w1.len() && isomorphic(&w2, got).is_yes() {
-            return Some(if folded { "compound_literal_triples_lost" } else { "rdf_list_type_dropped" });
+        if !candidates.is_empty() && candidates.len() <= 8 {
+            for mask in 1u32..(1 << candidates.len()) {
+                let dropped: BTreeSet<&MQuad> =
+                    candidates.iter().enumerate().filter(|(i, _)| mask & (1 << i) != 0).map(|(_, q)| *q).collect();
+                if w1.len() - dropped.len() != got.len() {
+                    continue;
+                }
+                let w2: BTreeSet<MQuad> = w1.iter().filter(|q| !dropped.contains(q)).cloned().collect();
+                if isomorphic(&w2, got).is_yes() {
+                    return Some(relabel(if folded {
+                        "compound_literal_triples_lost"
+                    } else if i18n_changed {
+                        "i18n_direction_without_language"
+                    } else {
+                        "rdf_list_type_dropped"
+                    }));
+                }
+            }
         }
         None
     };
@@ -635,8 +714,8 @@ fn scenarios() -> Vec<Scenario> {
             ..base("C08", 0xC08, c08::run_c08)
         },
         Scenario {
-            quick_runs: 25_000,
-            thorough_runs: 1_500_000,
+            quick_runs: 250_000,
+            thorough_runs: 6_000_000,
             rule: RT_RULE,
             real_components: &[
                 "sophia_jsonld::{JsonLdSerializer, serializer::engine, JsonLdParser, parser::adapter}",
